@@ -28,7 +28,15 @@ def pattern_pool():
         P(ch(a), ch(b)), P(ch(T_ANY), ch(b)), P(ch(b, P(ch(T_ANY)))), P(ch(a, num(1))), P(ch(T_ANY, P(at(t_name("x"))))),
         P(ch(a), abs_=True), P(abs_=True), P(dict(DOS), ch(b), abs_=True), P(ch(b), at(T_ANY)),
         P(ch(T_TEXT, bin_("=", path([step("self", T_NODE)]), lit("t")))),
+        # id() / key() patterns: key() returns nodes of ANY kind (the declaration KEY_DECL below indexes every node by its string-value),
+        # so these rules have to be looked up for text, comment, processing-instruction and root nodes as well
+        fn("key", lit("kt"), lit("t")), fn("key", lit("kt"), lit("c")), fn("key", lit("kt"), lit("d")), fn("key", lit("kt"), lit("1")), fn("key", lit("kt"), lit("")),
+        fn("id", lit("i1")), path([step("child", T_NODE)], start=fn("key", lit("kt"), lit("t"))),
     ]
+
+
+KEY_DECL = {"name": xdm.cps("kt"), "match": bin_("|", bin_("|", path([step("child", T_NODE)]), path([step("attribute", T_ANY)])), path([], abs_=True)),
+            "use": fn("string", path([step("self", T_NODE)]))}
 
 
 PRIOS = [None, None, None, -8, 0, 4, 8, -2, 2, 16]        # eighths
@@ -158,7 +166,8 @@ def render_module(mod, first_line, is_main):
     if is_main:
         lines.append('<xsl:template match="/" priority="99"><xsl:apply-templates select="//node() | //@* | /" mode="%s"/></xsl:template>' % mode_text("m"))
         lmap[len(lines)] = -99
-    lines.append("</xsl:stylesheet>")
+    lines.append(('<xsl:key name="kt" match=%s use=%s/>' % (quoteattr(xpgen.render(KEY_DECL["match"])), quoteattr(xpgen.render(KEY_DECL["use"]))) if is_main else "")
+                 + "</xsl:stylesheet>")
     return "\n".join(lines) + "\n", lmap, len(lines) + 2
 
 
@@ -302,7 +311,8 @@ def run(res, tier, seed):
             for pk in picks:
                 pk["doc"] = d + 1; pk["node"] = [d + 1, pk["node"][1], 0]
             events.append({"e": "Reset", "case": c["id"], "lookup": lookup})
-            events.append({"e": "Rules", "tree": spec_tree(tree), "docn": d + 1})
+            events.append({"e": "Rules", "tree": spec_tree(tree), "docn": d + 1,
+                           "keys": [{"name": KEY_DECL["name"], "match": xpgen.strip_render_only(KEY_DECL["match"]), "use": xpgen.strip_render_only(KEY_DECL["use"])}]})
             events += picks
             npicks += len(picks); nexec += 1
             rules_m = [r for r in all_rules(tree) if r["mode"] == "m"]
@@ -333,7 +343,7 @@ def run(res, tier, seed):
     res.cov["distinct_nontrivial"] = len(nontriv)
     res.cov["rule"] = ("%d targeted rule sets (a union rule with unequal default priorities x a competitor of every relative priority x document order / import; the default-priority "
                        "ladder: per node kind every ordered pair of pattern forms of the classes -0.5 / 0 / 0.5 and each form against explicit priorities -0.5 .. 0.5) + " % len(targeted) +
-                       "seeded rule sets: 1-9 rules over a 26-pattern pool (unions with unequal default priorities, *, node(), text(), @*, '/', predicates), priorities "
+                       "seeded rule sets: 1-9 rules over a 33-pattern pool (unions with unequal default priorities, *, node(), text(), @*, '/', predicates, id() and key() patterns over a key that indexes every node by its string-value), priorities "
                        "{none,-1,-0.25,0,0.25,0.5,1,2}, a tested and a distractor mode, import trees (flat / one / two / chain / two+chain), apply-imports bodies; every node "
                        "and attribute of the document is pushed through apply-templates; non-trivial = at least 3 different rules chosen or an apply-imports pick; distinct by (rule tree, document)")
     for ex in execs[:3]:
